@@ -161,6 +161,31 @@ func extractEvents(repo string, o *leanOut) {
 		{"ev_client_connect1", "mpx", "*client", "connect1", []string{"connecting", "connectRecover", "closed_", "async.Run", "mu."}},
 		{"ev_client_connectRecover", "mpx", "*client", "connectRecover", []string{"connectAttempt", "reconnectTimeout", "connector.connect", "closed_", "connected_", "disconnected_", "conns.", ".Close", "mu.", "handle"}},
 		{"ev_reconnectTimeout", "mpx", "", "reconnectTimeout", []string{"min", "@assign"}},
+		{"ev_pool_writerState_reset", "internal/writer", "*writerState", "reset", []string{"@assign", "reset"}},
+		{"ev_pool_writerState_init", "internal/writer", "*writerState", "init", []string{"@assign", "reset"}},
+		{"ev_pool_releaseWriterState", "internal/writer", "", "releaseWriterState", []string{"reset", "Put"}},
+		{"ev_pool_writer_reset", "internal/writer", "*writer", "reset", []string{"@assign"}},
+		{"ev_pool_stack_reset", "internal/writer", "*stack", "reset", []string{"@assign", "clear"}},
+		{"ev_pool_listStack_reset", "internal/writer", "*listStack", "reset", []string{"@assign", "clear"}},
+		{"ev_pool_messageStack_reset", "internal/writer", "*messageStack", "reset", []string{"@assign", "clear"}},
+		{"ev_pool_mpx_channelState_reset", "mpx", "*channelState", "reset", []string{"@assign", "Reset", "Free"}},
+		{"ev_pool_mpx_releaseChannelState2", "mpx", "", "releaseChannelState2", []string{"reset", "Put"}},
+		{"ev_pool_mpx_releaseChannelHandler", "mpx", "", "releaseChannelHandler", []string{"@assign", "Put"}},
+		{"ev_pool_rpc_channelState_reset", "rpc", "*channelState", "reset", []string{"@assign", "Reset", "Free"}},
+		{"ev_pool_rpc_releaseState", "rpc", "", "releaseState", []string{"reset", "Put"}},
+		{"ev_pool_rpc_requestState_reset", "rpc", "*requestState", "reset", []string{"@assign", "Reset", "Free"}},
+		{"ev_pool_rpc_releaseRequestState", "rpc", "", "releaseRequestState", []string{"reset", "Put"}},
+		{"ev_pool_rpc_serverChannelState_reset", "rpc", "*serverChannelState", "reset", []string{"@assign", "Reset", "Free"}},
+		{"ev_pool_rpc_releaseServerState", "rpc", "", "releaseServerState", []string{"reset", "Put"}},
+		{"ev_gen_typeWriteFunc", "internal/lang/generator", "", "typeWriteFunc", []string{"Sprintf"}},
+		{"ev_gen_typeDecodeFunc", "internal/lang/generator", "", "typeDecodeFunc", []string{"Sprintf"}},
+		{"ev_gen_typeName", "internal/lang/generator", "", "typeName", []string{"Sprintf"}},
+		{"ev_gen_message_field", "internal/lang/generator", "*messageWriter", "field", []string{"linef", "typeName", "typeDecodeFunc", "typeParseFunc", "typeNewFunc"}},
+		{"ev_gen_message_writer_field", "internal/lang/generator", "*messageWriter", "writer_field", []string{"linef", "typeWriteFunc", "typeWriter"}},
+		{"ev_gen_struct_decode", "internal/lang/generator", "*structWriter", "decode_method", []string{"linef", "typeDecodeFunc"}},
+		{"ev_gen_struct_encode", "internal/lang/generator", "*structWriter", "encode_method", []string{"linef", "typeWriteFunc"}},
+		{"ev_gen_enum_encode", "internal/lang/generator", "*enumWriter", "encode_method", []string{"linef"}},
+		{"ev_gen_enum_decode", "internal/lang/generator", "*enumWriter", "decode_method", []string{"linef"}},
 		{"ev_lexer_Lex", "internal/lang/parser", "*lexer", "Lex", []string{"Scan", "keywords", "ParseInt", "yyLexErrorf"}},
 		{"ev_lexer_new", "internal/lang/parser", "", "newLexer", []string{"@assign", "Init"}},
 		{"ev_lexer_Error", "internal/lang/parser", "*lexer", "Error", []string{"@assign"}},
